@@ -323,6 +323,35 @@ def run(tier, replay=None):
             ls = trace_lines(res)
             if ls:
                 items.append((s["id"], ls))
+    # ---- the window between "the client has the new stream's headers" and "the handler moves on", held open by a gate around
+    # the ResponseWriter's first Flush (independent of the library's hook points): a send issued there must arrive on the
+    # newest stream (GetStream: Open(c) sets newest = c; a send started afterwards has exp = c)
+    fw = []
+    for nconn in (2, 3):
+        steps = [{"op": "open", "arg": "c%d" % i} for i in range(1, nconn)]
+        steps += [{"op": "openheld", "arg": "c%d" % nconn}, {"op": "probeheld", "arg": "pr1", "kind": "c%d" % nconn}]
+        fw.append({"id": "fw%d" % nconn, "gated": False, "flush_window": True, "steps": steps, "_newest": "c%d" % nconn})
+    fres = run_schedules(fw, nproc=2)
+    for sc in fw:
+        res = fres[sc["id"]]
+        run_.evaluations += 1
+        total += 1
+        rp = {"schedule": {k: v for k, v in sc.items() if not k.startswith("_")}, "result": res, "spec": "GetStream (oracle: a send started after the newest stream's headers arrives on it)"}
+        if res.get("crash"):
+            run_.diverge("process-crash", "the server process crashed in the flush-window schedule: %s" % res["crash"][:1200], rp)
+            continue
+        if res.get("unrealised"):
+            unreal += 1
+            continue
+        pr = [o for o in res["obs"] if o["op"] == "probe"]
+        if not pr or not (pr[0]["ok"] and pr[0]["on"] == sc["_newest"]):
+            run_.diverge("window=headers-out send-not-on-newest",
+                         "the client had the headers of %s (its handler was still inside the Flush that sent them); a send issued then %s"
+                         % (sc["_newest"], ("arrived on %s" % pr[0]["on"]) if pr and pr[0]["ok"] else ("failed: %s" % (pr[0].get("err") if pr else "no observation"))), rp)
+        run_.nontriv(["flush-window", len(sc["steps"])])
+        ls = trace_lines(res)
+        if ls:
+            items.append((sc["id"], ls))
     if unreal > 0.2 * total:
         first = [results[s["id"]]["unrealised"] for s in scheds if results[s["id"]].get("unrealised")][:3]
         raise common.Broken("%d of %d schedules could not be realised on the code, e.g. %s" % (unreal, total, first))
